@@ -101,6 +101,7 @@ CLAIMS = {
             'KNOWN-FINDING; the envelope "IV i or IV 0, nothing else" is discharged.',
             'DESIGN.md 5.15, 13.5', 'T in {1, 2} quick (T = 1 has one stream and no finding).'),
 }
+NOTES = 'exit 0 = all obligations discharged; exit 1 = VIOLATION line; exit 2 = undecided (timeout, tool error, extraction break, vacuity guard, unmodelled library function), never a violation; KNOWN-FINDING lines (exit 0) for the findings listed in /verif/known_findings.json (D7 for C05, D10 for C18); fix: commits in /repo: ccd8522, 9352591, 3d8994d, 75eda31, e211882, 03b4061, 426ab41; results of discharged groups are cached under /verif/out/cache (function-level key, DESIGN.md 13.9; WV_NO_CACHE=1 disables)'
 NOT_APPLICABLE = {
     'C17': 'the command-line layer (valget/getopts.cpp parseOpts, main.cpp) cannot be brought within the verifier\'s reach: the extractor breaks on std::filesystem / std::string '
            'typed declarations and on constructor expressions in main (reported as extraction breaks in every evidence file), CBMC\'s C++ front end rejects the sources, and a '
@@ -115,8 +116,7 @@ def main():
     m = {'version': 1, 'setup_cmd': 'true', 'hooks': dict(old['hooks'], source_commits=hooks),
          'engines': [dict(old['engines'][0], serves_properties=sorted(CLAIMS))],
          'checks': [], 'not_applicable': [{'property_id': k, 'reason': v} for k, v in sorted(NOT_APPLICABLE.items())],
-         'notes': old['notes'] + '; KNOWN-FINDING lines (exit 0) for the findings listed in /verif/known_findings.json; fix: commits in /repo: ' +
-                  ', '.join(c.split()[0] for c in reversed(commits) if c.split(' ', 1)[1].startswith('fix:'))}
+         'notes': NOTES}
     for pid in sorted(CLAIMS):
         cat, text, ref, note = CLAIMS[pid]
         m['checks'].append({'property_id': pid, 'quick_cmd': 'bin/check %s --tier quick' % pid, 'thorough_cmd': 'bin/check %s --tier thorough' % pid,
